@@ -377,8 +377,8 @@ CHEAP = {"C03", "C05", "C07", "C09", "C10", "C13", "C15", "C16", "C17", "C18", "
 HEAVY = {
     "channel.py": [((178, 260), ["C19", "C11", "C04"]), ((261, 440), ["C12", "C04", "C11"]), ((441, 546), ["C11", "C19", "C04", "C12"]), ((0, 9999), ["C12", "C04", "C11", "C19"])],
     "task.py": [((0, 141), ["C14"]), ((142, 9999), ["C08", "C04", "C11", "C01"])],
-    "parser.py": [((0, 9999), ["C06", "C01", "C02", "C19"])],
-    "receiver.py": [((0, 9999), ["C06", "C01", "C02"])],
+    "parser.py": [((0, 9999), ["C06", "C01"])],
+    "receiver.py": [((0, 9999), ["C06", "C01"])],
     "utilities.py": [((200, 240), ["C16"]), ((253, 9999), ["C06", "C01"]), ((0, 9999), [])],
     "buffers.py": [((0, 9999), ["C12", "C04"])],
     "wasyncore.py": [((0, 9999), ["C04"])],
